@@ -154,7 +154,12 @@ char *__wrap_qstrreplace(const char *mode, char *srcstr, const char *tokstr, con
     if (vf_replace_budget > 0 && mode && mode[0] == 's' && mode[1] == 'n' && srcstr) {
         vf_replace_calls++;
         vf_replace_bytes += (long)strlen(srcstr);
-        if (vf_replace_calls > vf_replace_budget || vf_replace_bytes > (8L << 20) || strlen(srcstr) > (1u << 20)) {
+        // the result this round would have: unbounded growth shows here one round before it becomes a
+        // multi-gigabyte allocation
+        size_t tl = tokstr ? strlen(tokstr) : 0, wl = word ? strlen(word) : 0, occ = 0;
+        if (tl) for (const char *q = srcstr; *q;) { if (*q == tokstr[0] && memcmp(q, tokstr, tl <= strnlen(q, tl) ? tl : 1) == 0 && strnlen(q, tl) == tl) { occ++; q += tl; } else q++; }   // (no strstr: its sanitizer interceptor measures the whole haystack on every call)
+        size_t result = strlen(srcstr) + (wl > tl ? occ * (wl - tl) : 0);
+        if (vf_replace_calls > vf_replace_budget || vf_replace_bytes > (8L << 20) || strlen(srcstr) > (1u << 20) || result > (8u << 20)) {
             vf_replace_exceeded = 1;
             return __real_strdup("");
         }
